@@ -78,6 +78,53 @@ def hook_elaborate(ex, p, args, kwargs, node):
     return oracle("elaborate_frame", havoc_fields=("hide", "hide_line", "contexts"), post=[post])(ex, p, args, kwargs, node)
 
 
+# ------------------------------------------------------------------------------------------------ C16: Frame.origin
+from pyvc.calls import hasattr_fn
+
+
+def own_frame(H, o):
+    return If(is_kind(o, "generator"), H.getf(o, "gi_frame"), If(is_kind(o, "coroutine"), H.getf(o, "cr_frame"),
+                                                                 If(is_kind(o, "async_generator"), H.getf(o, "ag_frame"), NONE)))
+
+
+def genlike_attrs(H, o):
+    """CPython object model (assumed): which of gi_frame / cr_frame / ag_frame each generator-like type has; the attribute
+       holds a frame object (truthy) or None"""
+    conj = []
+    for kindname, attr in (("generator", "gi_frame"), ("coroutine", "cr_frame"), ("async_generator", "ag_frame")):
+        conj.append(Implies(genlike(o), hasattr_fn(attr)(o) == is_kind(o, kindname)))
+        f = H.getf(o, attr)
+        conj.append(Implies(is_kind(o, kindname), Or(Val.is_none(f), And(is_kind(f, "frame"), truthy_ref(Val.a(f))))))
+    return And(conj)
+
+
+def before_stmt(ex, n, p):
+    # instantiate the object-model facts for `origin` where the repaired code inspects it
+    if isinstance(n, ast.If) and ast.unparse(n.test).startswith("isinstance(current, types.FrameType)") and "origin" in p.env:
+        p.env["$origin_before"] = p.env["origin"]
+        p.pc.append(genlike_attrs(p.h, p.env["origin"].t))
+
+
+def ctor_frame_checked(ex, p, args, kwargs, node):
+    res = ctor_frame(ex, p, args, kwargs, node)
+    for st, p1, fr in res:
+        if st == "ok":
+            o = p1.getf(fr.t, "origin")
+            pf = p1.getf(fr.t, "pyframe")
+            # C16: a non-None origin is a generator-like object whose own frame IS this frame, hence (C03 unwrappers)
+            # extract_outermost(origin).pyframe is this frame
+            ex.oblig("C16.origin_recovers_frame", "clause", p1,
+                     Implies(o != NONE, And(genlike(o), own_frame(p1.h, o) == pf, pf != NONE)))
+            # ... and the generator-like origin that came with its own frame is kept (not dropped)
+            oin = p1.env.get("$origin_before")
+            if oin is not None:
+                ex.oblig("C16.own_frame_keeps_origin", "clause", p1,
+                         Implies(And(genlike(oin.t), own_frame(p1.h, oin.t) == pf), o == oin.t))
+    return res
+
+
+import ast  # noqa: E402
+
 # ------------------------------------------------------------------------------------------------ setup
 def ei_setup(ex, p):
     co = options_setup(p)
@@ -468,8 +515,9 @@ UNIT = Unit("C05.extract_iter", EI, ei_setup,
             bindings=dict(EXTRACT_BINDINGS, better_origin=contract_better_origin, unwrap_stackitem=hook_unwrap,
                           contexts_active_in_frame=hook_contexts, fill_context=hook_fill, elaborate_frame=hook_elaborate,
                           **{"_glue.add_glue_as_needed": noop}),
-            methods={**STD_METHODS, ("FrameIterator", "__next__"): hook_fi_next}, props=dict(OPT_PROPS), ctors=dict(CTORS),
-            known_classes=KNOWN, invariants=INVARIANTS, on_yield=on_yield,
+            methods={**STD_METHODS, ("FrameIterator", "__next__"): hook_fi_next}, props=dict(OPT_PROPS),
+            ctors=dict(CTORS, Frame=ctor_frame_checked),
+            known_classes=KNOWN, invariants=INVARIANTS, on_yield=on_yield, before_stmt=before_stmt,
             star_arity={"to_elaborate.pop()": 2},
             options=dict(iter_any_seq=True, par_k=16, par_after=("while#2",)),
             tuple_types={},
